@@ -7,16 +7,100 @@ tag memory before/after restricted to everything the independent layout model
 (ref/) does not count as NDEF area, no write command whose whole unit lies
 outside the NDEF area, no access the simulated tag had to refuse (locked or
 non existing memory, CC file, beyond the file size).
+
+Part 'retry' (props/tagretry.py): histories on one tag object.  Attempt 1 of
+`nd.octets = msg` fails because the link is disturbed from the j-th command of
+the write on (timeout / transmission / protocol error; command lost or
+response lost), then the application repeats the assignment on the SAME ndef
+object, fault free.  The oracle above is applied to the whole history (memory
+before attempt 1 against memory after the retry, every write command of both
+attempts); if the retry returned normally a fresh activation must also read
+`msg` (the application was told that the message is on the tag).  A retry that
+ends with an exception is accepted (tag and reader may be out of step after a
+lost response); the memory oracle still applies.
 """
 import time
 
 from mc.evidence import Run
 from mc import par
 from props import tagcases as tc
+from props import tagretry as tr
 
 PROP = 'C03'
 CASES = {}
 WIPE = 0x5A
+
+
+def retry_cases(tier, kinds=None):
+    """Layouts of the retry part: every tag type, static and dynamic memory,
+    reserved ranges before / inside / at the end of the message area, two
+    Type 2 Tags with two 1K sectors (SECTOR SELECT inside the write), Type 3
+    with one / several blocks per write command and the library's own
+    emulation, Type 4 with one-command, chunked (MLc 1, 2, 13, 52) and
+    ISO-DEP chained (FSC 16, 32, 64) UPDATE BINARY."""
+    t1 = [(120, 0x48, 0, 'none', 2), (120, 0x00, 1, 'early', 5),
+          (512, 0x4C, 0, 'none', 2), (512, 0x4C, 3, 'mid', 5),
+          (512, 0x4C, 6, 'tail2', 2), (256, 0x00, 1, 'early', 5)]
+    t2 = [(48, 'ntag210', 0, 'none', 2), (48, 'ntag210', 1, 'before', 1),
+          (144, 'ntag213', 1, 'mid', 5), (504, 'ntag215', 2, 'early', 5),
+          (504, 'ntag215', 3, 'none', 2), (1016, 'generic', 0, 'none', 2),
+          (1016, 'generic', 3, 'tail2', 2), (2040, 'generic', 3, 'none', 2),
+          (2040, 'generic', 1, 'mid', 5)]
+    t3 = [(4, 1, 5, False, 1), (4, 3, 5, False, 1), (1, 2, 13, False, 1),
+          (12, 13, 17, False, 0), (4, 3, 5, True, 0), (1, 1, 3, True, 0)]
+    t4 = [(0x20, 255, 255, 257, 8, 'A'), (0x20, 59, 13, 64, 2, 'B'),
+          (0x30, 15, 1, 64, 8, 'A'), (0x30, 256, 52, 257, 4, 'B'),
+          (0x20, 255, 2, 64, 0, 'A'), (0x30, 255, 255, 2048, 2, 'A')]
+    if tier == 'thorough':
+        t1 = [(size, hr1, nulls, rsv, 2 if rsv in ('none', 'tail2', 'endx')
+               else 5)
+              for size, hr1 in tc.T1_SIZES for rsv in tc.RSV_CLASSES
+              for nulls in ((0, 2) if size == 120 else (0, 5))]
+        t2 = [(D, tc.T2_SIZES[D][0], nulls, rsv,
+               2 if rsv in ('none', 'tail2', 'endx') else 5)
+              for D in (48, 144, 504, 1016, 2040) for rsv in tc.RSV_CLASSES
+              for nulls in (0, 3)]
+        t3 += [(2, 2, 3, False, 0), (15, 12, 16, False, 1),
+               (4, 4, 256, False, 0), (12, 8, 16, True, 0)]
+        t4 += [(m, mle, mlc, mfs, fsci, tech)
+               for m in (0x20, 0x30) for (mle, mlc) in ((15, 1), (59, 13),
+                                                       (255, 255), (256, 52))
+               for mfs in (64, 257) for fsci, tech in ((0, 'B'), (5, 'A'))]
+    out = []
+    if kinds is None or 'T1' in kinds:
+        out += [tc.t1_case(*a) for a in t1]
+    if kinds is None or 'T2' in kinds:
+        out += [tc.t2_case(*a) for a in t2]
+    if kinds is None or 'T3' in kinds:
+        out += [tc.T3Case(nbr, nbw, nmaxb, emulated=emu, spare=spare)
+                for nbr, nbw, nmaxb, emu, spare in t3]
+    if kinds is None or 'T4' in kinds:
+        out += [tc.T4Case(*a) for a in t4]
+    seen, uniq = set(), []
+    for c in out:
+        if c.name not in seen:
+            seen.add(c.name)
+            uniq.append(c)
+    return uniq
+
+
+def retry_lengths(case, tier):
+    """0, 1, half and full capacity, both sides of the 1/3 byte length format
+    (thorough: also 2, capacity-1, a quarter, three quarters)."""
+    cap = case.ref_capacity()
+    s = {0, 1, cap // 2, cap}
+    if cap >= 300:
+        s |= {254, 255, 256}
+    if tier == 'thorough':
+        s |= {2, cap - 1, cap // 4, (3 * cap) // 4}
+    return sorted(x for x in s if 0 <= x <= cap)
+
+
+def retry_combos(tier):
+    """(pattern, previous content): count/empty, tlv/long, ff/short,
+    zero/long - an all-zero message leaves pages unchanged, so the command
+    sequence of the write differs from the other patterns."""
+    return tc.MID_COMBOS
 
 
 def formats(case):
@@ -39,7 +123,47 @@ def items_for(tier, cases, chunk=48):
     return items
 
 
+def work_retry(item):
+    _, ci, prev, pat, n, tier = item
+    case = CASES['retry'][ci]
+    run = Run(PROP)
+    t0 = time.process_time()
+    info, results = tr.c03_retry(case, prev, pat, n, tier)
+    sample = None
+    for fault, name, fails, obs in results:
+        key = (case.name, 'retry-write', prev, pat, n, fault)
+        if not fails:
+            run.ok(key=key)
+        for sig, detail in fails:
+            detail['tier'] = tier
+            run.fail(sig, detail, key=key, deviations=2)
+        run.count('retry:histories:' + case.kind)
+        run.count('retry:fault:%s:%s' % (fault[1], fault[2]))
+        for o in obs:
+            run.count('retry:' + o)
+        run.outcome((case.kind, 'retry') + tuple(sorted(obs)))
+        if sample is None or fault[0] == (info['n'] + 1) // 2:
+            sample = dict(case=case.name, op='retry-write', prev=prev,
+                          pattern=pat, n=n, commands_of_write=info['n'],
+                          fault=list(fault), faulted_command=name,
+                          observed=sorted(obs),
+                          verdict='ok' if not fails else fails[0][0])
+    run.count('retry:writes:' + case.kind)
+    run.count('retry:exempt:timeout-where-the-tag-answers-with-silence',
+              info['exempt'])
+    if info['thinned']:
+        run.count('retry:writes-with-thinned-positions')
+    if info['complete'] != 'completed':
+        run.count('retry:complete-write-raises:' + info['complete'])
+    run.count('cpu_ms', int((time.process_time() - t0) * 1000))
+    if sample:
+        run.sample(sample)
+    return run.export()
+
+
 def work(item):
+    if item[0] == 'r':
+        return work_retry(item)
     run = Run(PROP)
     t0 = time.process_time()
     case = CASES['list'][item[1]]
@@ -84,10 +208,20 @@ def work(item):
 
 def main(tier='quick', seed=0, part=None):
     run = Run(PROP, tier, seed, level='exploration')
-    kinds = None if part is None else set(part.split(','))
+    tokens = set(part.split(',')) if part else set()
+    kinds = (tokens - {'main', 'retry'}) or None
+    parts = (tokens & {'main', 'retry'}) or {'main', 'retry'}
     cases = tc.all_cases(tier, kinds)
     CASES['list'] = cases
-    items = items_for(tier, cases)
+    items = items_for(tier, cases) if 'main' in parts else []
+    n_main = len(items)
+    rcases = retry_cases(tier, kinds)
+    CASES['retry'] = rcases
+    if 'retry' in parts:
+        for ci, case in enumerate(rcases):
+            for n in retry_lengths(case, tier):
+                for (pat, prev) in retry_combos(tier):
+                    items.append(('r', ci, prev, pat, n, tier))
     for res in par.pmap(work, par.shuffled(items, seed), chunksize=4):
         run.merge(res)
     run.rule = ("one case = (layout, operation, previous content, pattern, "
@@ -96,7 +230,20 @@ def main(tier='quick', seed=0, part=None):
                 "coverage.bounds.grid); format cases: every layout whose tag "
                 "class implements format x previous {empty, short, long} x "
                 "{no wipe, wipe}; every case executes the real code and is "
-                "distinct")
+                "distinct.  Part 'retry': one case = (layout, previous "
+                "content, pattern, length, faulted position j of the command "
+                "sequence of the fault-free write, error kind timeout/"
+                "transmission/protocol, command lost / response lost): "
+                "attempt 1 of `ndef.octets = msg` runs with every exchange "
+                "from the j-th on failing (a burst beyond every retry budget), "
+                "then the assignment is repeated fault free on the same ndef "
+                "object; j = every position for sequences up to %d commands, "
+                "else first, second, middle, last, every SECTOR SELECT packet "
+                "and the first/last occurrence of every command name%s; "
+                "layouts/lengths of this part: coverage.bounds.retry" % (
+                    tr.SMALL[tier], ' (+ third, last but one, quartiles, both '
+                    'sides of every command name change)'
+                    if tier == 'thorough' else ''))
     run.assumptions += [
         "tag simulators (sim/t?t.py) record every write and keep lock/OTP "
         "bits one-way; they are the trusted base",
@@ -106,21 +253,52 @@ def main(tier='quick', seed=0, part=None):
         "protected there",
         "Type3Tag.format() is called with version=0x10 (version=None raises "
         "struct.error in _format - outside this property)",
+        "retry part: the disturbance of attempt 1 lasts until that attempt "
+        "returns; a timeout where the tag answers with silence anyway (second "
+        "SECTOR SELECT packet) is not a fault; a retry that raises is "
+        "accepted, read-back of the new message is demanded only after a "
+        "retry that returned normally",
     ]
-    by_kind = {}
+    by_kind, rby_kind = {}, {}
     for c in cases:
         by_kind[c.kind] = by_kind.get(c.kind, 0) + 1
+    for c in rcases:
+        rby_kind[c.kind] = rby_kind.get(c.kind, 0) + 1
     run.extra['bounds'] = dict(
         layouts=by_kind, grid=tc.GRID_DOC[tier], wipe=WIPE,
         format_layouts=sum(1 for c in cases if formats(c)),
         reserved_classes=list(tc.RSV_CLASSES) + ['afterL', 'NDEF TLV 2/3/6 and 254..260 bytes before the end'],
-        items=len(items), part=part)
+        items=n_main, part=part,
+        retry=dict(layouts=rby_kind, layout_names=[c.name for c in rcases],
+                   lengths='0, 1, capacity/2, capacity, 254..256 if they fit'
+                   + ('; 2, capacity-1, capacity/4, 3*capacity/4'
+                      if tier == 'thorough' else ''),
+                   combos=[list(c) for c in retry_combos(tier)],
+                   writes=len(items) - n_main, kinds=list(tr.KINDS),
+                   variants=list(tr.VARIANTS),
+                   all_positions_up_to=tr.SMALL[tier]))
     return run.finish(exhaustive=(part is None))
 
 
 def replay(doc):
     d = doc['detail']
     case = tc.from_spec(d['spec'])
+    if d['op'] == 'retry-write':
+        info, results = tr.c03_retry(case, d['prev'], d['pattern'], d['n'],
+                                     d.get('tier', 'quick'),
+                                     only=tuple(d['fault']))
+        rc = 0
+        for fault, name, fails, obs in results:
+            print('attempt 1 disturbed from command %d (%s) on, %s, %s; then '
+                  'retry on the same ndef object: %s' % (
+                      fault[0], name, fault[1], fault[2], sorted(obs)))
+            for sig, det in fails:
+                print('VIOLATION %s' % sig)
+                print('  %r' % (det,))
+                rc = 1
+        if not rc:
+            print('no violation for this case')
+        return rc
     if d['op'] == 'write':
         f = tc.check_write(case, d['prev'], d['pattern'], d['n'])
     else:
